@@ -8,6 +8,7 @@ import (
 	"reflect"
 	"runtime"
 	"strings"
+	"time"
 	"unicode/utf8"
 
 	openfgav1 "github.com/openfga/api/proto/openfga/v1"
@@ -803,6 +804,9 @@ const f14 = "F14-nested-tuple-cycles-cubic"
 
 // c08StartOrders builds the weighted graph once for every node the depth-first weight assignment can start from (the first
 // answer of the start loop's map iteration; the rest of the schedule is the default) and returns the largest step count.
+// c08StartOrdersCapped: the last enumeration of start nodes was cut short by the wall-clock cap.
+var c08StartOrdersCapped bool
+
 func c08StartOrders(ctx *core.Ctx, pm *openfgav1.AuthorizationModel) (worst c08Out, worstChoices []int, runs int) {
 	build := func() (bool, error) {
 		g, e := graph.NewWeightedAuthorizationModelGraphBuilder().Build(pm)
@@ -827,6 +831,11 @@ func c08StartOrders(ctx *core.Ctx, pm *openfgav1.AuthorizationModel) (worst c08O
 		prefix[i] = pts[i].Choice
 	}
 	for alt := 1; alt < pts[idx].N; alt++ {
+		if ctx.Expired() {
+			// an incomplete maximum must not be compared with a complete one: the caller drops the family
+			c08StartOrdersCapped = true
+			return
+		}
 		ch := append(append([]int{}, prefix...), alt)
 		rt.Run(ch, nil, func() { o = c08Call(build) })
 		runs++
@@ -855,6 +864,10 @@ func c08ScaledOne(ctx *core.Ctx, fam string) {
 		}
 	}
 	for _, n := range sizes {
+		if ctx.Expired() {
+			ctx.Cap("wall-clock cap inside a scaled family (family not judged further)")
+			return
+		}
 		m := scaledModel(fam, n)
 		pm := ref.ToProto(m)
 		// growth is judged against the length of the input (wire size of the model), not against the family parameter:
@@ -914,8 +927,13 @@ func c08ScaledOne(ctx *core.Ctx, fam string) {
 		if (n > 32 || size > 4000) && !ctx.Thorough() {
 			continue // quick: start orders for models up to 4 KB and 32 levels
 		}
+		c08StartOrdersCapped = false
 		w, wch, runs := c08StartOrders(ctx, pm)
 		ctx.Trans(runs)
+		if c08StartOrdersCapped {
+			ctx.Cap("wall-clock cap while enumerating the start nodes of a scaled family (family not judged)")
+			return
+		}
 		cs.Choices = wch
 		if w.panic != nil || w.hang {
 			kind := "panic"
@@ -1151,6 +1169,10 @@ func c08RawBytes(ctx *core.Ctx) {
 			return
 		}
 		for off := 0; off <= len(d); off++ {
+			if ctx.Expired() {
+				ctx.Cap("wall-clock cap in raw-byte insertion")
+				return
+			}
 			for _, el := range rawByteElems {
 				one(d[:off] + el + d[off:])
 			}
@@ -1410,6 +1432,12 @@ var jsonTokens = []string{"{", "}", "[", "]", ":", ",", `"schema_version"`, `"ty
 var yamlTokens = []string{"schema", "contents", ":", " ", "\n", "-", "'1.2'", "1.2", "[", "]", "{", "}", ",", "a.fga", "'", "\"", "#", "&a", "*a", "!!str", "|", ">", "  ", "\t", "%", "---", "...", "? ", "~", "../"}
 
 func c08JSONYAML(ctx *core.Ctx) {
+	jyCapped := false
+	defer func() {
+		if jyCapped {
+			ctx.Cap("wall-clock cap inside the JSON / YAML token strings")
+		}
+	}()
 	k := 3
 	if ctx.Thorough() {
 		k = 4
@@ -1417,7 +1445,8 @@ func c08JSONYAML(ctx *core.Ctx) {
 	base := 0
 	for n := 0; n <= k; n++ {
 		gen.LexemeStrings(jsonTokens, n, func(i int, s string) {
-			if !ctx.Mine(base + i) {
+			if !ctx.Mine(base+i) || (i%256 == 0 && ctx.Expired()) || jyCapped {
+				jyCapped = jyCapped || ctx.Expired()
 				return
 			}
 			ctx.Eval(1)
@@ -1426,7 +1455,8 @@ func c08JSONYAML(ctx *core.Ctx) {
 		})
 		base += gen.Pow(len(jsonTokens), n)
 		gen.LexemeStrings(yamlTokens, n, func(i int, s string) {
-			if !ctx.Mine(base + i) {
+			if !ctx.Mine(base+i) || (i%256 == 0 && ctx.Expired()) || jyCapped {
+				jyCapped = jyCapped || ctx.Expired()
 				return
 			}
 			ctx.Eval(1)
@@ -1629,15 +1659,17 @@ func c08Run(ctx *core.Ctx) {
 	}
 	// the sections that carry vacuity guards and cost little come first, the large enumerations last: a wall-clock cap
 	// then cuts the tail of an enumeration, never a whole section
-	c08Faults(ctx)
-	c08JSONYAML(ctx)
-	c08RawBytes(ctx)
-	c08Scaled(ctx)
-	c08ProtoShapes(ctx)
-	c08Nested(ctx)
-	c08Pump(ctx)
-	c08MergeSets(ctx)
-	c08Corpus(ctx)
+	t0 := time.Now()
+	for _, sec := range []struct {
+		name string
+		f    func(*core.Ctx)
+	}{{"faults", c08Faults}, {"json-yaml", c08JSONYAML}, {"raw-bytes", c08RawBytes}, {"scaled", c08Scaled}, {"proto-shapes", c08ProtoShapes},
+		{"nested", c08Nested}, {"pump", c08Pump}, {"merge-sets", c08MergeSets}, {"corpus", c08Corpus}} {
+		sec.f(ctx)
+		if os.Getenv("VERIF_DEBUG_SECTIONS") != "" {
+			fmt.Fprintf(os.Stderr, "SECTION shard=%d %s done at %.0fs\n", ctx.Shard, sec.name, time.Since(t0).Seconds())
+		}
+	}
 	// (a) all lexeme strings in every context
 	k := 3
 	base := 0
@@ -1651,11 +1683,21 @@ func c08Run(ctx *core.Ctx) {
 				ctx.Cap(fmt.Sprintf("wall-clock cap in lexeme enumeration (context %d, length %d)", ci, n))
 				break
 			}
+			capped := false
 			gen.LexemeStrings(alpha, n, func(i int, s string) {
-				if ctx.Mine(base + i) {
-					c08Text(ctx, cx+s)
+				if capped || !ctx.Mine(base+i) {
+					return
 				}
+				if i%64 == 0 && ctx.Expired() {
+					capped = true
+					ctx.Cap(fmt.Sprintf("wall-clock cap inside the lexeme enumeration (context %d, length %d)", ci, n))
+					return
+				}
+				c08Text(ctx, cx+s)
 			})
+			if capped {
+				break
+			}
 			base += gen.Pow(len(alpha), n)
 		}
 	}
